@@ -169,7 +169,8 @@ def run(res, tier):
 
     # ------------------------------------------------------------------ R-FINITE
     res.rule("R-FINITE", "mju_isBad truth table", floor=8)
-    fn = um.funcs["mju_isBad"]
+    from .. import norm
+    fn = norm.canon(um, "mju_isBad", propagate=True, nested=False)      # named sub-expressions substituted
     rets = [n for n in cir.walk(fn) if n.get("k") == "ReturnStmt"]
     if len(rets) != 1:
         raise AnalysisError("mju_isBad: expected a single return expression")
